@@ -290,7 +290,7 @@ func c12feed(c *core.Check) {
 		}
 		for i, s := range list {
 			as, ok := s.(*ast.AssignStmt)
-			if !ok || len(as.Lhs) != 1 || rules.ExprString(as.Lhs[0]) != "fm.files" {
+			if !ok || len(as.Lhs) != 1 || rules.ExprString(as.Lhs[0]) != recvNameOf(fd, "fm")+".files" {
 				continue
 			}
 			call, ok := as.Rhs[0].(*ast.CallExpr)
@@ -301,7 +301,7 @@ func c12feed(c *core.Check) {
 			paired := false
 			for _, p := range list[:i] {
 				if pa, ok := p.(*ast.AssignStmt); ok && len(pa.Lhs) == 1 {
-					if ix, ok := pa.Lhs[0].(*ast.IndexExpr); ok && rules.ExprString(ix.X) == "fm.index" && rules.ExprString(pa.Rhs[0]) == "len(fm.files)" {
+					if ix, ok := pa.Lhs[0].(*ast.IndexExpr); ok && rules.ExprString(ix.X) == recvNameOf(fd, "fm")+".index" && rules.ExprString(pa.Rhs[0]) == "len("+recvNameOf(fd, "fm")+".files)" {
 						paired = true
 					}
 				}
@@ -321,9 +321,21 @@ func c12build(c *core.Check) {
 		return
 	}
 	info := c.Prog.Pkg("generator").TypesInfo
+	recv := "fm"
+	if fd.Recv != nil && len(fd.Recv.List) == 1 && len(fd.Recv.List[0].Names) == 1 {
+		recv = fd.Recv.List[0].Names[0].Name
+	}
+	resName := "res"
+	for _, s := range fd.Body.List {
+		if rs, ok := s.(*ast.ReturnStmt); ok && len(rs.Results) == 1 {
+			if id, ok := rs.Results[0].(*ast.Ident); ok {
+				resName = id.Name
+			}
+		}
+	}
 	var loop *ast.RangeStmt
 	for _, s := range fd.Body.List {
-		if rs, ok := s.(*ast.RangeStmt); ok && rules.ExprString(rs.X) == "fm.files" {
+		if rs, ok := s.(*ast.RangeStmt); ok && rules.ExprString(rs.X) == recv+".files" {
 			loop = rs
 		}
 	}
@@ -331,7 +343,7 @@ func c12build(c *core.Check) {
 		c.Bad("response-one-per-file", key, c.Prog.Rel(fd.Pos()), "BuildResponse no longer ranges over fm.files")
 		return
 	}
-	counts := appendCounts(info, loop.Body.List, "res.Contents")
+	counts := appendCounts(info, loop.Body.List, resName+".Contents")
 	ok := len(counts) > 0
 	for _, n := range counts {
 		if n != 1 {
@@ -357,7 +369,7 @@ func c12build(c *core.Check) {
 				}
 			}
 		case *ast.RangeStmt:
-			if strings.HasPrefix(rules.ExprString(x.X), "fm.patch[") && strings.Contains(rules.ExprString(x.X), v+".GetName()") {
+			if strings.HasPrefix(rules.ExprString(x.X), recv+".patch[") && strings.Contains(rules.ExprString(x.X), v+".GetName()") {
 				for _, call := range rules.Calls(x.Body, false) {
 					if fn := rules.Callee(info, call); fn != nil && fn.Name() == "Add" {
 						patchOK = true
